@@ -1,7 +1,10 @@
 use crate::streaming::partitions::partition::{ConsumerOffset, Partition};
 use crate::streaming::partitions::COMPONENT;
 use crate::streaming::polling_consumer::PollingConsumer;
+#[cfg(not(kani))]
 use dashmap::DashMap;
+#[cfg(kani)]
+use iggy::verif_model::dashmap::DashMap;
 use error_set::ErrContext;
 use iggy::consumer::ConsumerKind;
 use iggy::error::IggyError;
